@@ -267,7 +267,26 @@ def _split_guards(fn):
 
 
 _LIVE_SECONDS = chartparse.tick.seconds_from_ticks_at_bpm
-_SEC_GUARDS, _SEC_TAIL = _split_guards(_LIVE_SECONDS)
+
+
+def _guards_by_representatives(ticks, bpm, resolution):
+    """Fallback when the live kernel is not of the shape `guards; straight-line tail`: run the WHOLE live
+    kernel natively on sign representatives of the integer arguments (-1 / 0 / 1) and mirror whether
+    it raises.  Contract assumed: whether the kernel rejects its arguments depends on the tempo and
+    on the signs of ticks and resolution only (its documented preconditions)."""
+    t = -1 if ticks < 0 else (0 if ticks == 0 else 1)
+    r = -1 if resolution < 0 else (0 if resolution == 0 else 1)
+    with untraced():
+        _LIVE_SECONDS(t, bpm, r)
+    return None
+
+
+try:
+    _SEC_GUARDS, _SEC_TAIL = _split_guards(_LIVE_SECONDS)
+    GUARD_MODE = "live guard prefix (AST)"
+except Exception:  # noqa: BLE001 - any shape we cannot split
+    _SEC_GUARDS, _SEC_TAIL = _guards_by_representatives, None
+    GUARD_MODE = "whole live kernel on sign representatives"
 
 
 class Clock:
